@@ -504,3 +504,12 @@ M("C02", "right-to-left sweep moves at site 0", "kill", [(IMPL, "        if self
 M("C09", "DMRG left-to-right moves past the last pair", "kill", [(IMPL, "        if idx < self.qubit_count - 2:\n            self.left_baths.append(", "        if idx <= self.qubit_count - 2:\n            self.left_baths.append(")], "TDVP-boundary")
 M("C10", "DMRG reverses one site early", "kill", [(IMPL, "        if self._sweep_index == self.qubit_count - 2:\n            self._swipe_direction", "        if self._sweep_index == self.qubit_count - 3:\n            self._swipe_direction")], "TDVP-boundary")
 M("C02", "twin: boundary written from the other side", "twin", [(IMPL, "        if self._sweep_index > 0:\n            self.right_baths.append(", "        if 0 < self._sweep_index:\n            self.right_baths.append(")])
+M("C01", "emu-sv interaction matrix taken at the end of the step", "kill",
+  [(SVI, "self.interaction_matrix(self.target_times[step_idx]),", "self.interaction_matrix(self.target_times[step_idx + 1]),")], "STEP-sv")
+M("C23", "emu-mps interaction matrix taken at the target time", "kill",
+  [(IMPL, "            0.5 * (self.current_time + self.target_time)\n", "            self.target_time\n")], "INTERACT-time")
+M("C26", "interrupted run forces a snapshot from the exception handler", "kill",
+  [(BK, "        while not impl.is_finished():\n            impl.progress()\n",
+    "        try:\n            while not impl.is_finished():\n                impl.progress()\n        except BaseException:\n            impl.last_save_time = 0.0\n            impl.save_simulation()\n            raise\n")], "SAVE-callers")
+M("C27", "resume forces an immediate snapshot", "kill",
+  [(BK, "        impl.last_save_time = time.time()\n", "        impl.last_save_time = 0.0\n")], "SAVE-callers")
